@@ -693,3 +693,45 @@ def impl_paired_tags(case, scratch):
     return {"outcome": "ok", "tags": sorted(k for k, v in ALLOWED_HTML_TAGS.items() if not v.get("no-end-tag")),
             "all": {k: {kk: (sorted(vv) if isinstance(vv, (set, list, tuple)) else vv) for kk, vv in v.items()}
                     for k, v in ALLOWED_HTML_TAGS.items()}}
+
+
+# ---------------------------------------------------------------- C19
+def impl_roundtrip(case, scratch):
+    ctx = parse_ctx(scratch)
+    outs = []
+    for t in case["texts"]:
+        try:
+            ctx.start_page("Tt")
+            t1 = ctx.parse(t)
+            w1 = ctx.node_to_wikitext(t1)
+            ctx.start_page("Tt")
+            t2 = ctx.parse(w1)
+            w2 = ctx.node_to_wikitext(t2)
+            ctx.start_page("Tt")
+            t3 = ctx.parse(w2)
+            parts = ctx.node_to_wikitext(list(t1.children))
+            each = "".join(ctx.node_to_wikitext(c) for c in t1.children)
+            outs.append({"t1": _tree(t1), "w1": w1, "t2": _tree(t2), "w2": w2, "t3": _tree(t3),
+                         "list_ok": parts == each == w1})
+        except BaseException as e:  # noqa
+            import traceback
+            tb = traceback.extract_tb(e.__traceback__)
+            outs.append({"raised": type(e).__name__, "where": tb[-1].name if tb else ""})
+            ctx.parser_stack = []
+    return {"outcome": "ok", "outs": outs}
+
+
+def impl_brackets(case, scratch):
+    """Text nodes holding literal double brackets must survive to_wikitext + parse as text."""
+    from wikitextprocessor import parser as P
+    ctx = parse_ctx(scratch)
+    outs = []
+    for s in case["strings"]:
+        ctx.start_page("Tt")
+        root = ctx.parse("x")
+        root.children = [s]
+        w = ctx.node_to_wikitext(root)
+        ctx.start_page("Tt")
+        t2 = ctx.parse(w)
+        outs.append({"w": w, "tree": _tree(t2)})
+    return {"outcome": "ok", "outs": outs}
